@@ -6,6 +6,7 @@ import (
 	"go/types"
 	"strconv"
 	"strings"
+	"time"
 
 	"golang.org/x/tools/go/ssa"
 )
@@ -568,6 +569,7 @@ func init() {
 		"sync/atomic.AddUint64":    atomicAdd,
 		"sync/atomic.AddInt64":     atomicAdd,
 		"strconv.Itoa":             strconvItoa,
+		"time.ParseDuration":       parseDurationNative,
 		"internal/abi.NoEscape":    func(in *Interp, st *State, fn *ssa.Function, a []Value, r ssa.Value, p token.Pos) (Value, bool) { return a[0], true },
 		"(*strings.Builder).copyCheck": func(in *Interp, st *State, fn *ssa.Function, a []Value, r ssa.Value, p token.Pos) (Value, bool) { return nil, true },
 		"math/bits.TrailingZeros64": tz64Summary,
@@ -1004,4 +1006,21 @@ func tz64Summary(in *Interp, st *State, fn *ssa.Function, args []Value, retTo ss
 	}
 	in.eng.noteSummary("math/bits.TrailingZeros64")
 	return in.refTZ64(x), true
+}
+
+// parseDurationNative: time.ParseDuration is a pure function of its argument;
+// on a concrete string the host's (identical) standard library computes it.
+func parseDurationNative(in *Interp, st *State, fn *ssa.Function, args []Value, retTo ssa.Value, pos token.Pos) (Value, bool) {
+	s, ok := in.concreteStr(st, args[0])
+	if !ok {
+		return nil, false
+	}
+	d, err := time.ParseDuration(s)
+	var ev Value = Iface{}
+	if err != nil {
+		errT := in.prog.ImportedPackage("errors").Type("errorString").Type()
+		id := st.alloc(Struct{F: []Value{in.strConst(st, err.Error())}}, "time.ParseDuration error")
+		ev = Iface{T: types.NewPointer(errT), V: Ptr{Obj: id}}
+	}
+	return Tuple{E: []Value{in.tf.ConstI(64, int64(d)), ev}}, true
 }
